@@ -107,6 +107,7 @@ def run(F, rep, tier):
     plain_text_rule(F, rep)
     carrier_rule(F, rep)
     lexical_forms_rule(F, rep)
+    whole_text_rule(F, rep)
     # premise (C02): every conversion between text and number works on a private, pristine copy of the default context - a conversion must not depend on an earlier one
     from props import c02
     r3 = rep.rule("R02.3", "every FFI call gets a private copy of the default context; the default context is never modified from Rust")
@@ -116,7 +117,7 @@ def run(F, rep, tier):
 # ====================================================================================================== R07.1 / R07.2
 def plain_text_rule(F, rep):
     r1 = rep.rule("R07.1", "Display / Jsonify of FeelNumber folded over every to-scientific-string shape: plain decimal text, sign first, same digits, decimal point moved by exactly the exponent")
-    r2 = rep.rule("R07.2", "Display and Jsonify of FeelNumber produce the same text on every shape; Value::Number renders through them")
+    r2 = rep.rule("R07.2", "Display and Jsonify of FeelNumber denote the same value on every shape and representative text; Value::Number renders through them")
     impls = {}
     for n in F.hir:
         if "{closure" in n:
@@ -175,6 +176,45 @@ def plain_text_rule(F, rep):
                     pre = " (zero counts assumed >= 0: %s)" % ", ".join(sorted({strfold.render_lin(p) for p in sf.preconditions}))
                 rep.ok(r1, ikey, "%s -> %s%s" % (strfold.render(text), strfold.render(val), pre))
     rep.floor(r1, "shape x rendering cells", nshape, 24)
+    # representative *literal* library texts: a rewriting that depends on the digits themselves (trimming zeros, rounding) cannot be judged on opaque digit runs - the
+    # shapes above then answer UNDECIDED; on literal texts the abstract string engine computes exactly, and a text whose rendering denotes another value is positive evidence
+    from decimal import Decimal, InvalidOperation
+    REPS = ["0", "-0", "7", "100", "100.0", "10.00", "250.000", "0.0", "0.50", "1.50", "-2.0", "123.456", "-0.001", "1E+3", "1.5E+3", "1.230E+5", "-1.2E+9", "0E+3", "1E-7", "1.5E-7",
+            "-1.50E-9", "0E-7", "1.000E-7", "9.999999999999999999999999999999999E+6144", "1E-6176", "-1.000000000000000000000000000000000E+40"]
+    form = re.compile(r"^-?(0|[1-9][0-9]*)(\.[0-9]+)?$")
+    for k, name in sorted(impls.items()):
+        h = F.hir[name]
+        probs, und = [], 0
+        for t in REPS:
+            val, sf, ev = fold_text(F, name, strfold.mk([("sgn",)] + [("c", t[1:])]) if t.startswith("-") else strfold.mk([("c", t)]), crate_fns)
+            if val is None or not all(a[0] in ("c", "sgn") for a in val[1]):
+                und += 1
+                continue
+            got = "".join(strfold.text_of(a) for a in val[1])
+            texts[(k, "lit:" + t)] = got
+            try:
+                same = Decimal(got) == Decimal(t)
+            except InvalidOperation:
+                same = False
+            if (not same or not form.match(got)) and len(probs) < 3:
+                probs.append("the library text %s is rendered `%s`%s" % (t if len(t) < 30 else t[:12] + ".." + t[-8:], got if len(got) < 40 else got[:20] + "..", "" if same else ", which denotes another value"))
+        ikey = "%s:literal-texts" % k
+        if probs:
+            rep.violation(r1, ikey, "%s of FeelNumber: %s" % (k, "; ".join(probs)), "%s:%s" % (h["file"], h["line"]))
+        elif und:
+            rep.undecided(r1, ikey, "%d of %d representative library texts do not fold" % (und, len(REPS)))
+        else:
+            rep.ok(r1, ikey, "%d representative library texts (trailing zeros, zero values, both exponent signs, extreme exponents) render to plain text of the same value" % len(REPS))
+    for t in REPS:
+        a, b = texts.get(("Display", "lit:" + t)), texts.get(("Jsonify", "lit:" + t))
+        if a is not None and b is not None and a != b:
+            try:
+                same = Decimal(a) == Decimal(b)
+            except InvalidOperation:
+                same = False
+            if not same:
+                h = F.hir[impls["Jsonify"]]
+                rep.violation(r2, "agree:lit:%s" % t, "for the library text %s Display gives `%s` but Jsonify gives `%s`, which do not denote the same value" % (t, a[:40], b[:40]), "%s:%s" % (h["file"], h["line"]))
     # R07.2
     for key, text, *_ in shapes():
         a, b = texts.get(("Display", key)), texts.get(("Jsonify", key))
@@ -183,8 +223,15 @@ def plain_text_rule(F, rep):
                 rep.undecided(r2, "agree:%s" % key, "one of the two renderings does not fold")
             continue
         if a != b:
+            # different texts are fine as long as they denote the same value (1.50 and 1.5): compare what the two texts denote
+            evx = Evaluator(F, ints=True)
+            pa, sa, qa, ea = strfold.numeric_value(evx, a)
+            pb, sb, qb, eb = strfold.numeric_value(evx, b)
             h = F.hir[impls["Jsonify"]]
-            rep.violation(r2, "agree:%s" % key, "for the library text %s Display gives %s but Jsonify gives %s" % (strfold.render(text), strfold.render(a), strfold.render(b)), "%s:%s" % (h["file"], h["line"]))
+            if not pa and not pb and (sa, qa, ea) == (sb, qb, eb):
+                rep.ok(r2, "agree:%s" % key, "%s / %s: same value" % (strfold.render(a), strfold.render(b)))
+            else:
+                rep.violation(r2, "agree:%s" % key, "for the library text %s Display gives %s but Jsonify gives %s, which do not denote the same value" % (strfold.render(text), strfold.render(a), strfold.render(b)), "%s:%s" % (h["file"], h["line"]))
         else:
             rep.ok(r2, "agree:%s" % key, strfold.render(a))
     # Value::Number arms of Display / Jsonify of Value go through the FeelNumber implementations
@@ -452,3 +499,85 @@ def lexical_forms_rule(F, rep):
 
 def abbreviate(t):
     return t if len(t) <= 24 else "%s..%s (%d characters)" % (t[:8], t[-6:], len(t))
+
+
+# ====================================================================================================== R07.5
+def whole_text_rule(F, rep):
+    """the decimal reader sees the whole text: the C string handed to decQuadFromString is a heap copy sized by the text (CString), not a buffer of fixed size - a plain text of a
+    finite decimal128 value can have thousands of digits (1E+6144), so any fixed buffer truncates or overflows"""
+    import mirutil
+    rid = rep.rule("R07.5", "the text handed to decQuadFromString is a NUL-terminated copy of the whole text (CString), not a fixed-size buffer")
+    n = 0
+    for name, b in sorted(F.bodies.items()):
+        if not b["_crate"].startswith("dmntk_feel_number"):
+            continue
+        Bd = None
+        for bl in b["blocks"]:
+            t = bl["t"]
+            if t[0] != "call":
+                continue
+            ff = F.foreign.get(t[1]["f"].get("p")) if hasattr(F, "foreign") else None
+            sym = (ff or {}).get("sym") or (t[1]["f"].get("p") or "").split("::")[-1]
+            if sym != "decQuadFromString" or len(t[1]["args"]) < 2:
+                continue
+            n += 1
+            Bd = Bd or mirutil.Body(F, b)
+            roots = Bd.pointer_root(t[1]["args"][1])
+            key = "text:%s" % name.split("::")[-1]
+            where = "%s:%s" % (b["file"], t[1].get("line"))
+            kinds = set()
+            for r in roots or []:
+                if r[0] == "local":
+                    ty = Bd.local_ty(r[1])
+                    kinds.add("fixed buffer `%s`" % ty if re.match(r"^\[[iu]8; ", ty) else "CString" if "CString" in ty else ty)
+                elif r[0] == "call":
+                    kinds.add("CString" if "CString" in r[1] or "c_str" in r[1] else r[1].split("::")[-1])
+                else:
+                    kinds.add(str(r[0]))
+            fixed = [k for k in kinds if k.startswith("fixed buffer")]
+            if fixed:
+                rep.violation(rid, key, "%s hands decQuadFromString a %s: a text longer than the buffer is cut off (or overruns it) - plain texts of decimal128 values have up to 6178 characters" % (name, fixed[0]), where)
+            elif kinds and all(k == "CString" for k in kinds):
+                rep.ok(rid, key, "CString (heap copy of the whole text)")
+            else:
+                rep.undecided(rid, key, "the text pointer derives from %s" % (sorted(kinds) or "?"))
+    rep.floor(rid, "calls of decQuadFromString", n, 1)
+
+
+# ====================================================================================================== panic-freedom of the rewriting, for the inventory of C05 / C12
+_SHAPE_VERDICT = {}
+
+
+def shape_fold_verdict(F):
+    """(ok, functions, detail): the bodies of Display / Jsonify for FeelNumber and every function of the number crate they evaluate, folded on all shapes of
+    to-scientific-string, never apply unwrap / expect to None / Err, contain no operation the fold could not follow, and every count they subtract is one of the
+    differences the specification keeps non-negative (n - |f| for E+ with a fraction, n - 1 for E-).  The panic inventory uses this as a discharge for the unwrap and
+    subtraction sites of those functions: the same premise its audits stated in prose (the text is the output of decQuadToString), now checked by folding."""
+    key = id(F)
+    if key in _SHAPE_VERDICT:
+        return _SHAPE_VERDICT[key]
+    impls = {}
+    for n in F.hir:
+        if re.match(r"^<dmntk_feel_number::number::FeelNumber as core::fmt::Display>::fmt$", n):
+            impls["Display"] = n
+        if re.match(r"^<dmntk_feel_number::number::FeelNumber as dmntk_common::[a-z_:]*Jsonify>::jsonify$", n):
+            impls["Jsonify"] = n
+    crate_fns = {n for n in F.hir if (n.startswith("dmntk_feel_number::") or n.startswith("<dmntk_feel_number::number::FeelNumber as ")) and "{closure" not in n and "::dec::" not in n}
+    fns, ok, why = set(), bool(impls), []
+    allowed = {"n-|f|", "n-1", "-|f|+n"}
+    for key_, text, digits, ex, frac, sg in shapes():
+        for k, name in impls.items():
+            val, sf, ev = fold_text(F, name, text, crate_fns)
+            fns |= ev.inlined | {name}
+            if val is None or sf.unknown or sf.panics:
+                ok = False
+                why.append("%s:%s %s" % (k, key_, (sf.panics or sf.unknown or ["does not fold"])[0]))
+            for pre in sf.preconditions:
+                lin = ev.as_lin(pre)
+                if lin is not None and all(c >= 0 for c in lin[0].values()) and lin[1] >= 0:
+                    continue        # a sum of lengths / parsed unsigned numbers: non-negative by type
+                if strfold.render_lin(pre) not in allowed:
+                    ok = False
+                    why.append("%s:%s subtracts %s" % (k, key_, strfold.render_lin(pre)))
+    _SHAPE_VERDICT[key] = (ok, fns, "; ".join(why[:3]))
+    return _SHAPE_VERDICT[key]
